@@ -266,7 +266,8 @@ def _visitor_by_role(ctx):
     # undeclared-fixture scan: statement visitors reachable from the function that records undeclared fixtures' caller
     from ..facts import DbInfo
     db = ctx.memo("dbinfo", lambda: DbInfo(ctx))
-    writers = {op.fn.root for op in db.ops_by_map.get("undeclared_fixtures", []) if op.method == "entry"}
+    um = db.maps_where(lambda k, v: "UndeclaredFixture" in v)
+    writers = {op.fn.root for m_ in um for op in db.ops_by_map.get(m_, []) if op.method == "entry"}
     # the innermost statement visitor from which the code recording undeclared fixtures is reached
     svs = stmt_visitors(crate, cg)
     reach = {f.id: cg.reach([f.id]) for f in svs}
